@@ -198,8 +198,10 @@ impl QuicStream {
         QuicStream { send, recv }
     }
 
+    /// Finish the sending direction (it may already have been finished by closing the sink) and wait until the
+    /// peer has acknowledged everything: dropping the stream - and with it the connection - earlier loses the tail
     pub async fn close(mut self) -> Result<()> {
-        self.send.finish()?;
+        let _ = self.send.finish();
         match self.send.stopped().await {
             Ok(_) => Ok(()),
             Err(e) => bail!(e),
